@@ -129,3 +129,13 @@ package redisemu
 //@ loop 1 invariant lockMode(ctx.dsc) && dscOK(ctx.dsc) && !mutated && !bumped && !removedKey && !gApplied
 //@ loop 2 invariant lockMode(ctx.dsc) && dscOK(ctx.dsc) && !mutated && !bumped && !removedKey && !gApplied
 //@ loop 3 invariant lockMode(ctx.dsc) && dscOK(ctx.dsc) && !mutated && !bumped && !removedKey && !gApplied
+
+// C03 / C13: LPOS hands the store a non-negative rank, count and comparison budget (a negative RANK selects the direction; the most negative integer cannot be negated and is refused)
+//@ func fnLPos
+//@ prop C03
+//@ safetyprop C13
+//@ requires ctx != nil && ctx.dsc != nil && dscOK(ctx.dsc)
+//@ requires [C08,C16] unlocked: lockMode(ctx.dsc)
+//@ requires !mutated && !bumped && !removedKey
+//@ modifies *
+//@ ensures [C03] rank.zero: old(istype(args["rank"], int64) && unbox(args["rank"], int64) == 0) ==> istype(output.data, respErrorString)
